@@ -40,6 +40,10 @@ def n_addrinfos(scn: dict) -> int:
 def op_bound(op: Any, scn: dict) -> float | None:
     n = n_addrinfos(scn)
     start = 30.0 + 60.0 * n
+    res = scn.get("net", {}).get("resolver", {})
+    addrs = scn.get("client", {}).get("addresses", [])
+    if addrs and all(a in res and res[a].get("result") == "hang" for a in addrs) and op.do in ("start", "conn.start", "connect"):
+        return 30.0  # nothing ever resolves: the attempt ends with the resolve step's own limit
     if op.do in ("start", "conn.start"):
         return start
     if op.do in ("finish", "conn.finish"):
@@ -217,6 +221,10 @@ def gen_connect_fault_case(rng: random.Random) -> dict:
         if rng.random() < 0.4:
             addrs.append("10.0.0.6")
         net["resolver"] = {"dev.example.com": {"result": pick(rng, ["hang", "error", "empty", [[4, "10.0.0.5"]], [[6, "fd00::5"], [4, "10.0.0.5"]]]), "latency": pick(rng, [0.0, 0.5, 29.9999, 30.0, 30.0001, 45.0])}}
+        if rng.random() < 0.25:
+            # several configured names, every lookup hangs: the resolve step as a whole has 30 s
+            addrs = ["dev.example.com", "dev2.example.com", "dev3.example.com"][: rng.randint(2, 3)]
+            net["resolver"] = {a: {"result": "hang", "latency": 0.0} for a in addrs}
     elif kind == "mdns":
         addrs = [pick(rng, ["mydev.local", "mydev"])]
         net["mdns"] = {"mydev": {"outcome": pick(rng, ["ok", "none", "error", "hang"]), "v4": ["10.0.0.5"], "v6": pick(rng, [[], ["fd00::5"]]), "latency": pick(rng, [0.01, 1.0, 2.999, 3.5])}}
